@@ -32,7 +32,7 @@ class Stub:
 
 def scenarios(tier):
     k = 1 if tier == "quick" else 10
-    return [("small", 8000 * k), ("large", 3000 * k)]
+    return [("small", 24000 * k), ("large", 4000 * k)]
 
 
 def gen(rng, scenario, tier):
